@@ -5645,3 +5645,68 @@ func c04r15(c *Ctx, r *Report) {
 	})
 	r.floor("constants flowing into Pattern.sortable", n, 1)
 }
+
+// c02r13: fzf is released for 32-bit targets (linux/386, linux/arm, windows/386) where `int` has 32 bits. Two
+// products in the code reach 2^31 for long lines and must not be computed in `int`: the scratch-size test N*M of
+// FuzzyMatchV2 (compared with the slab's capacity) and the scaling MaxUint16*x of the `end` tiebreak key
+// (D52/D53: on GOARCH=386 the first wrapped negative, the V1 fallback was skipped and alloc16 sliced the slab
+// with negative bounds — a crash for a 2.1 M character line and an 1100 character query; the second inverted
+// the order of matches ending beyond column 32768).
+func c02r13(c *Ctx, r *Report) {
+	l := c.L
+	r.rule("C02-R13", "H (no product in platform `int` that can exceed 2^31)", "P1",
+		"in packages fzf and algo, no multiplication of type int has a constant factor of 2^15 or more and a run-time factor, and no multiplication of two run-time ints is compared with a cap(..) value",
+		"on 32-bit builds: a crash in the matcher for a very long line with a long query; inverted --tiebreak=end order for matches beyond column 32768")
+	n, nCap := 0, 0
+	for _, fn := range l.AllFuncs() {
+		if fn.Blocks == nil || fn.Pkg == nil || (fn.Pkg != l.pkg("fzf") && fn.Pkg != l.pkg("algo")) {
+			continue
+		}
+		k := 0
+		eachInstr(fn, func(in ssa.Instruction) {
+			b, ok := in.(*ssa.BinOp)
+			if !ok {
+				return
+			}
+			isInt := func(v ssa.Value) bool {
+				bt, ok := v.Type().Underlying().(*types.Basic)
+				return ok && bt.Kind() == types.Int
+			}
+			switch b.Op {
+			case token.MUL:
+				if !isInt(b) {
+					return
+				}
+				kx, cx := constIntVal(b.X)
+				ky, cy := constIntVal(b.Y)
+				if cx && cy {
+					return
+				}
+				if cx && kx >= 1<<15 || cy && ky >= 1<<15 {
+					n++
+					k++
+					r.bad(fmt.Sprintf("%s:product #%d with a large constant is 64-bit", relName(fn), k), b.Pos(), fn, "computed in int64", "a run-time int is multiplied by a constant >= 2^15 in platform int: it wraps on 32-bit targets once the other factor exceeds 2^16")
+				}
+			case token.GTR, token.LSS, token.GEQ, token.LEQ:
+				for _, pr := range [][2]ssa.Value{{b.X, b.Y}, {b.Y, b.X}} {
+					cc, ok := pr[1].(*ssa.Call)
+					if !ok || calleeName(cc.Common()) != "builtin.cap" {
+						continue
+					}
+					nCap++
+					if m, ok := pr[0].(*ssa.BinOp); ok && m.Op == token.MUL && isInt(m) {
+						if _, c1 := constIntVal(m.X); !c1 {
+							if _, c2 := constIntVal(m.Y); !c2 {
+								n++
+								k++
+								r.bad(fmt.Sprintf("%s:size test #%d does not multiply two lengths", relName(fn), k), m.Pos(), fn, "compared by division", "the product of two run-time lengths is compared with a capacity: on 32-bit targets it wraps and the test passes for sizes that do not fit")
+							}
+						}
+					}
+				}
+			}
+		})
+	}
+	r.ok("fzf+algo:products in platform int", token.NoPos, nil, fmt.Sprintf("%d capacity comparisons inspected", nCap))
+	r.floor("comparisons with a capacity", nCap, 3)
+}
